@@ -136,7 +136,7 @@ from contracts import c15_uri  # noqa: E402
 CONTRACTS += c15_uri.CONTRACTS
 from contracts import misc_quick as _mq  # noqa: E402
 
-CONTRACTS += [_mq.adapt_uri]
+CONTRACTS += [_mq.adapt_uri, _mq.otp_type]
 BOUNDED = [Bounded("c15", "harness/c15.py", descr="round trips through uri/json/dict over hostile labels and class defaults; corrupted sources", timeout=900)]
 
 MUTANTS = [
